@@ -25,12 +25,17 @@
    previous-hash field, the zero hash, is no other block's hash).
    T9-T10 (C06_import_resumes, C06_removal_resumes; Ledger/Resume.v, ResumeProofs.v): the STEPS of
    the background tasks resume (T5 is about the queue only).
-   LIMIT of T6-T8, and a defect of the code: in Ledger/Crash.v "no wallet is ready"
+   T2r, T3r, T6r-T8r (Ledger/Crash3.v, CrashProofs3.v): the same for Start as repaired a second time
+   (the fast-forward only on top of a stored tip that is still on the node's chain): T2 and T3
+   without the [on_chain] half of [safe_point].
+   LIMIT of T6-T8, and a defect of the code (repaired): in Ledger/Crash.v "no wallet is ready"
    ([no_ready_wallet]) is "no address has been issued" — the process model has no wallet that is
    being imported.  In the code the fast-forward is also taken when the only wallets are being
    imported; their credits up to the rescan cursor are in the store, and a fast-forward over a
    stale fork neither rolls them back nor pulls the cursor back: C06_ff_stale_import_refuted
-   (Ledger/ResumeFF.v; reproduced on the real code, see there). *)
+   (Ledger/ResumeFF.v; reproduced on the real code by harness/cmd/c06's import-only family).
+   T11-T12 (Ledger/ResumeFFProofs.v): Start with its fast-forward AS REPAIRED while a restore is in
+   progress, from any rescan cursor, on any chain the node may have at the restart. *)
 From Coq Require Import List ZArith NArith Bool Lia.
 Import ListNotations.
 Open Scope Z_scope.
@@ -336,6 +341,99 @@ Proof.
   - vm_compute. repeat split; reflexivity.
 Qed.
 
+(* ---------------------------------------------------------------- Start as repaired a second time *)
+
+(* Ledger/Crash3.v: [start_chk] = Start with both repairs: the tip check of the first one, and the
+   fast-forward taken only on top of a stored tip that is still on the node's chain (otherwise the
+   block of height syncHeight+1 goes through processConnectedBlock first; KNOWN_FINDINGS fixed: C06).
+   [restart_chk], [crashes_chk], [crashes_at_chk], [crash_run_chk] as in Crash.v / Crash2.v.  Proofs:
+   Ledger/CrashProofs3.v.  With this repair the [on_chain] half of [safe_point] is no longer needed:
+   T2 and T3 hold at EVERY crash point but the bare-genesis one ([not_bare_genesis], which T6r-T8r
+   cover under [genesis_prev_free]). *)
+Require Import MW.Ledger.Crash3 MW.Ledger.CrashProofs3.
+
+(* T2r: a run with one crash IS a run of the process that never stops, on the history with the
+   restart's announcements inserted at the crash point — fast-forward or not, the node reorganised
+   below the stored tip or not *)
+Theorem C06_crash_is_history_repaired : forall p ff g h bt k,
+  0 <= ff ->
+  wf_history_gen p true g (h ++ [EvProcess bt]) ->
+  not_bare_genesis g (fst (fst (cut p k (init_proc g) h))) ->
+  crash_run_chk p ff g k h = Some (prun p (init_proc g) (crash_history p true g k h)).
+Proof. exact crash_is_history_chk. Qed.
+Print Assumptions C06_crash_is_history_repaired.
+
+(* T3r: the restarted wallet is on the node's tip as soon as Start has returned *)
+Theorem C06_restart_on_tip_repaired : forall p ff g h bt k pr1 pre post,
+  0 <= ff ->
+  wf_history_gen p true g (h ++ [EvProcess bt]) ->
+  cut p k (init_proc g) h = (pr1, pre, post) -> not_bare_genesis g pr1 ->
+  exists pr2, restart_chk p ff g pr1 = Some pr2 /\
+    snd (tip (s_wallet (pr_sim pr2))) = b_id (last (s_node (pr_sim pr1)) g) /\
+    s_node (pr_sim pr2) = s_node (pr_sim pr1).
+Proof. exact restart_on_tip_chk. Qed.
+Print Assumptions C06_restart_on_tip_repaired.
+
+(* T6r = C06 for the code as repaired: every commit boundary of every history as the crash point,
+   repeated crashes included, NO premise on the crash points *)
+Theorem C06_crash_equiv_repaired : forall p ff g h bt ks,
+  0 <= ff ->
+  wf_history_gen p true g (h ++ [EvProcess bt]) ->
+  last (s_node (run p true g h)) g = bt ->
+  genesis_prev_free g (g :: blocks_of_history (h ++ [EvProcess bt])) ->
+  exists pr', crashes_chk p ff g ks (init_proc g) h = Some pr' /\
+    forall w, observe (finish p g pr') w = observe (finish p g (prun p (init_proc g) h)) w /\
+              observe (finish p g pr') w =
+              spec_report p (own_of (s_own (run p true g h))) (s_node (run p true g h)) w.
+Proof. exact crash_equiv_chk. Qed.
+Print Assumptions C06_crash_equiv_repaired.
+
+(* T7r: crashes at ARBITRARY instants (the node moves during the outage) *)
+Theorem C06_crash_equiv_at_repaired : forall p ff g h bt js,
+  0 <= ff ->
+  wf_history_gen p true g (h ++ [EvProcess bt]) ->
+  last (s_node (run p true g h)) g = bt ->
+  genesis_prev_free g (g :: blocks_of_history (h ++ [EvProcess bt])) ->
+  exists pr', crashes_at_chk p ff g js (init_proc g) h = Some pr' /\
+    forall w, observe (finish p g pr') w = observe (finish p g (prun p (init_proc g) h)) w /\
+              observe (finish p g pr') w =
+              spec_report p (own_of (s_own (run p true g h))) (s_node (run p true g h)) w.
+Proof. exact crash_equiv_at_chk. Qed.
+Print Assumptions C06_crash_equiv_at_repaired.
+
+(* T8r: restart at ANY point of a history, after any earlier crashes *)
+Theorem C06_restart_any_chain_repaired : forall p ff g h bt ks pre post pr1,
+  0 <= ff ->
+  wf_history_gen p true g (h ++ [EvProcess bt]) ->
+  genesis_prev_free g (g :: blocks_of_history (h ++ [EvProcess bt])) ->
+  h = pre ++ post ->
+  crashes_chk p ff g ks (init_proc g) pre = Some pr1 ->
+  s_node (pr_sim pr1) = s_node (run p true g pre) /\ s_own (pr_sim pr1) = s_own (run p true g pre) /\
+  exists pr2, restart_chk p ff g pr1 = Some pr2 /\
+    s_node (pr_sim pr2) = s_node (pr_sim pr1) /\ s_own (pr_sim pr2) = s_own (pr_sim pr1) /\
+    snd (tip (s_wallet (pr_sim pr2))) = b_id (last (s_node (pr_sim pr1)) g) /\
+    forall w, observe pr2 w = spec_report p (own_of (s_own (pr_sim pr1))) (s_node (pr_sim pr1)) w.
+Proof. exact restart_any_chain_chk. Qed.
+Print Assumptions C06_restart_any_chain_repaired.
+
+(* the crash point of [C06_stale_fork_hypotheses] (not a [safe_point]: Start as found fast-forwards over
+   the abandoned block 1) satisfies the premise of T2r/T3r; Start as repaired finds the stored tip
+   replaced, sends block 2c through the reorganisation path, and the sync records are the node's chain *)
+Example C06_stale_fork_restart_repaired :
+  let pr1 := prun p0 (init_proc g0) h_sf1 in
+  not_bare_genesis g0 pr1 /\ ff_wanted 1 pr1 = true /\ tip_on_node pr1 = false /\
+  match restart_chk p0 1 g0 pr1 with
+  | Some pr2 => synced (s_wallet (pr_sim pr2)) = [(4, 14%N); (3, 13%N); (2, 12%N); (1, 11%N); (0, 0%N)]
+  | None => False
+  end /\
+  match restart p0 true 1 g0 pr1 with
+  | Some pr2 => synced (s_wallet (pr_sim pr2)) = [(4, 14%N); (3, 13%N); (2, 12%N); (1, 1%N); (0, 0%N)]
+  | None => False
+  end.
+Proof.
+  cbv zeta. split; [left; vm_compute; discriminate|]. vm_compute. repeat split; reflexivity.
+Qed.
+
 (* ---------------------------------------------------------------- T9-T10: the steps of the background tasks resume *)
 
 (* Model: Ledger/Import.v, Ledger/Remove.v (the multi-wallet store: persistent fields and the
@@ -463,27 +561,131 @@ Qed.
 (* ---------------------------------------------------------------- the fast-forward while a wallet is being imported *)
 
 (* Start's fast-forward on the multi-wallet layer ([start_sync_ff], Ledger/ResumeFF.v: SetSyncedTo
-   for all but the last ff heights when no wallet is READY, then Remove.v's Start).  Batch size 2,
+   for all but the last ff heights when no wallet is READY, then Remove.v's Start; the switch
+   [f_ff_check] of Import.v's [fixes]: false = the code as found, true = as repaired: the stored
+   tip is compared with the node's block of that height first, and if it was replaced the next
+   block goes through processConnectedBlock before anything is fast-forwarded).
+   The code as found ([before_ff_check]: the repairs made until the defect was found, not this one; with
+   asyncImport's later chain check and without this repair the same restart leaves the rescan retrying
+   for ever instead — observed on the real code).  Batch size 2,
    ff = 2: the wallet is restored on chain A (blocks 1 and 2 pay it 5 and 7); the process stops after
    the first rescan batch (cursor 2); the node abandons blocks 2..4 and grows to height 8 on a
    branch that never pays the wallet; restart: the fast-forward writes the node's sync records on
    top of the abandoned ones, the coin of the abandoned block 2 stays, the cursor stays at 2, the
    rescan finishes: the wallet is ready and reports 12 where the chain pays 5.  Without the
    fast-forward (ff = 2000) the same restart processes the reorganisation and ends correct.
-   Reproduced on the real code with batch 1000 / ff 2000 (harness/cmd/ffprobe in the working copy). *)
-Require MW.Ledger.ResumeFF.
+   Reproduced on the real code (batch 1000 / ff 2000) by the import-only family of harness/cmd/c06
+   (chain of 1092 blocks, crash between the two rescan batches, node reorganised at 873 and grown to
+   3120 while the wallet is down); repaired in /repo. *)
+Require MW.Ledger.ResumeFF MW.Ledger.ResumeFFProofs.
+Require Import MW.Ledger.Proofs4 MW.Ledger.ImportProofs MW.Ledger.ImportProofs2.
 Theorem C06_ff_stale_import_refuted :
   Import.status_of ResumeFF.stF1 1 = Some (Import.WImporting 2) /\ ResumeFF.has_ready ResumeFF.stF1 = false /\
   synced (x_w ResumeFF.stF1) = [(4, 4%N); (3, 3%N); (2, 2%N); (1, 1%N); (0, 0%N)] /\
-  ResumeFF.start_sync_ff repaired ResumeFF.pF 2 ResumeFF.chainC (xreopen ResumeFF.stF1) = XOk (ResumeFF.stF2 2) /\
-  synced (x_w (ResumeFF.stF2 2)) =
+  ResumeFF.tip_on_node ResumeFF.chainC (xreopen ResumeFF.stF1) = false /\
+  ResumeFF.start_sync_ff ResumeFF.before_ff_check ResumeFF.pF 2 ResumeFF.chainC (xreopen ResumeFF.stF1)
+    = XOk (ResumeFF.stF2 ResumeFF.before_ff_check 2) /\
+  synced (x_w (ResumeFF.stF2 ResumeFF.before_ff_check 2)) =
     [(8, 18%N); (7, 17%N); (6, 16%N); (5, 15%N); (4, 4%N); (3, 3%N); (2, 2%N); (1, 1%N); (0, 0%N)] /\
-  Import.status_of (ResumeFF.stF2 2) 1 = Some (Import.WImporting 2) /\
-  Import.status_of (ResumeFF.stF3 2) 1 = Some Import.WReady /\ fst (tip (x_w (ResumeFF.stF3 2))) = 8 /\
-  r_total (xreport (ResumeFF.stF3 2) 1) = 12 /\
-  r_total (spec_report ResumeFF.pF (key_owner (ResumeFF.stF3 2)) ResumeFF.chainC 1) = 5 /\
-  Import.status_of (ResumeFF.stF2 2000) 1 = Some (Import.WImporting 1) /\
-  Import.status_of (ResumeFF.stF3 2000) 1 = Some Import.WReady /\
-  xreport (ResumeFF.stF3 2000) 1 = spec_report ResumeFF.pF (key_owner (ResumeFF.stF3 2000)) ResumeFF.chainC 1.
+  Import.status_of (ResumeFF.stF2 ResumeFF.before_ff_check 2) 1 = Some (Import.WImporting 2) /\
+  Import.status_of (ResumeFF.stF3 ResumeFF.before_ff_check 2) 1 = Some Import.WReady /\
+  fst (tip (x_w (ResumeFF.stF3 ResumeFF.before_ff_check 2))) = 8 /\
+  r_total (xreport (ResumeFF.stF3 ResumeFF.before_ff_check 2) 1) = 12 /\
+  r_total (spec_report ResumeFF.pF (key_owner (ResumeFF.stF3 ResumeFF.before_ff_check 2)) ResumeFF.chainC 1) = 5 /\
+  Import.status_of (ResumeFF.stF2 ResumeFF.before_ff_check 2000) 1 = Some (Import.WImporting 1) /\
+  Import.status_of (ResumeFF.stF3 ResumeFF.before_ff_check 2000) 1 = Some Import.WReady /\
+  xreport (ResumeFF.stF3 ResumeFF.before_ff_check 2000) 1 =
+    spec_report ResumeFF.pF (key_owner (ResumeFF.stF3 ResumeFF.before_ff_check 2000)) ResumeFF.chainC 1 /\
+  (* [tipcheck_no_ff_check]: with asyncImport's chain check, the code right before this repair: the same
+     fast-forward, then every batch is refused: the wallet stays "importing" for ever *)
+  synced (x_w (ResumeFF.stF2 ResumeFF.tipcheck_no_ff_check 2)) = synced (x_w (ResumeFF.stF2 ResumeFF.before_ff_check 2)) /\
+  snd (import_batch ResumeFF.tipcheck_no_ff_check ResumeFF.pF 2 ResumeFF.chainC (ResumeFF.stF2 ResumeFF.tipcheck_no_ff_check 2) 1) = IRetry /\
+  Import.status_of (ResumeFF.stF3 ResumeFF.tipcheck_no_ff_check 2) 1 = Some (Import.WImporting 2).
 Proof. exact ResumeFF.ff_stale_import_refuted. Qed.
 Print Assumptions C06_ff_stale_import_refuted.
+
+(* the same crash and the same margin on the code as repaired: block 15 (height 5) goes through the
+   reorganisation path (rollback to the fork at height 1, cursor pulled back to 1), the rest as before;
+   the rescan finishes and the report is the specification *)
+Example C06_ff_stale_import_repaired :
+  ResumeFF.start_sync_ff repaired ResumeFF.pF 2 ResumeFF.chainC (xreopen ResumeFF.stF1) = XOk (ResumeFF.stF2 repaired 2) /\
+  synced (x_w (ResumeFF.stF2 repaired 2)) =
+    [(8, 18%N); (7, 17%N); (6, 16%N); (5, 15%N); (4, 14%N); (3, 13%N); (2, 12%N); (1, 1%N); (0, 0%N)] /\
+  Import.status_of (ResumeFF.stF2 repaired 2) 1 = Some (Import.WImporting 1) /\
+  Import.status_of (ResumeFF.stF3 repaired 2) 1 = Some Import.WReady /\
+  r_total (xreport (ResumeFF.stF3 repaired 2) 1) = 5 /\
+  xreport (ResumeFF.stF3 repaired 2) 1 = spec_report ResumeFF.pF (key_owner (ResumeFF.stF3 repaired 2)) ResumeFF.chainC 1.
+Proof. exact ResumeFF.ff_stale_import_repaired. Qed.
+
+(* T11 = C06 for a restore in progress, Start with its fast-forward as repaired (proofs:
+   Ledger/ResumeFFProofs.v over C07's invariant [xinv p g U w keys c st] of Ledger/ImportProofs2.v:
+   the handler follows the chain c and the store holds exactly the history of wallet w on c up to the
+   rescan cursor).
+   From ANY such state — any cursor, the handler's chain c and the node's chain n ANY two well-formed
+   chains on the same genesis (the node reorganised at any depth below, at or above the cursor, grown
+   or shrunk while the process was down; n not a bare genesis), any margin ff >= 0: Start succeeds
+   and the handler then follows the node's chain, the store holding exactly the wallet's history of
+   THAT chain up to the (pulled-back) cursor.  No premise on the crash point. *)
+Theorem C06_ff_restart_any_chain : forall p g U w keys ff c n st,
+  (forall b1 b2, In b1 U -> In b2 U -> b_id b1 = b_id b2 -> b1 = b2) ->
+  (forall sh v, lookupN keys sh = Some v -> v = w) ->
+  0 <= ff -> ninv g U n -> (2 <= length n)%nat -> xinv p g U w keys c st ->
+  exists st', ResumeFF.start_sync_ff repaired p ff n (xreopen st) = XOk st' /\ xinv p g U w keys n st'.
+Proof. exact ResumeFFProofs.ff_restart_any_chain. Qed.
+Print Assumptions C06_ff_restart_any_chain.
+
+(* T12: the same after any history: a wallet is being restored; the node and the handler do whatever
+   C07's event system allows (blocks attached and detached at any depth, announcements of any block
+   processed or still outstanding, rescan batches: [xwf]); at ANY point the process stops and is
+   restarted on the same store, the node being where it is.  Start as repaired (fast-forward, any
+   margin): succeeds, the handler is on the node's tip, and m further rescan batches make the wallet
+   ready — as soon as cursor + m * B exceeds the height of the node's chain — with exactly the
+   ledger and the report of the node's chain: the state of a run that never stopped. *)
+Theorem C06_ff_restart_resumes : forall p g U w pass sh shs B cap n0 h ff m,
+  (forall b1 b2, In b1 U -> In b2 U -> b_id b1 = b_id b2 -> b1 = b2) -> 0 < B -> 0 <= ff ->
+  wf_chain n0 -> from_g g n0 -> incl n0 U ->
+  xwf p g U w B cap (xrun repaired p B cap n0 [XImportStart w pass (sh :: shs)]) h ->
+  let s := xrun repaired p B cap n0 (XImportStart w pass (sh :: shs) :: h) in
+  let own := kown w (keys_of w (sh :: shs)) in
+  (2 <= length (xs_node s))%nat ->
+  exists st', ResumeFF.start_sync_ff repaired p ff (xs_node s) (xreopen (xs_st s)) = XOk st' /\
+    snd (tip (x_w st')) = b_id (last (xs_node s) g) /\
+    ((forall k, Import.status_of st' w = Some (Import.WImporting k) -> chain_height (xs_node s) < k + Z.of_nat m * B) ->
+     let st'' := batches repaired p B (xs_node s) st' w m in
+     Import.status_of st'' w = Some Import.WReady /\
+     ledger_of_chain p true own (xs_node s) = Ok (x_w st'') /\
+     xreport st'' w = spec_report p own (xs_node s) w).
+Proof. exact ResumeFFProofs.ff_restart_moving. Qed.
+Print Assumptions C06_ff_restart_resumes.
+
+(* non-vacuity of T12 on the history of the witness above: restore on chain A, one batch (B = 2, cursor
+   2), the node abandons blocks 2..4 and grows to height 8 (chain C); every premise holds, the restart
+   is one that takes the fast-forward branch (no wallet ready, ff = 1 < 8, the stored tip 4 + 1 < 8 - 1)
+   over a stored tip that is NOT on the node's chain, and 4 batches finish the restore with the
+   report 5 that chain C pays *)
+Definition U_ff : list block := ResumeFF.chainA ++ skipn 2 ResumeFF.chainC.
+Definition hist_ff : list xevent :=
+  [XBatch 1; XDetach; XDetach; XDetach] ++ map XAttach (skipn 2 ResumeFF.chainC).
+
+Example C06_ff_restart_instance :
+  (forall b1 b2, In b1 U_ff -> In b2 U_ff -> b_id b1 = b_id b2 -> b1 = b2) /\
+  wf_chain ResumeFF.chainA /\ from_g ResumeFF.gF ResumeFF.chainA /\ incl ResumeFF.chainA U_ff /\
+  xwf ResumeFF.pF ResumeFF.gF U_ff 1 2 20000 (xrun repaired ResumeFF.pF 2 20000 ResumeFF.chainA [XImportStart 1 7 [1%N]]) hist_ff /\
+  let s := xrun repaired ResumeFF.pF 2 20000 ResumeFF.chainA (XImportStart 1 7 [1%N] :: hist_ff) in
+  xs_node s = ResumeFF.chainC /\ xreopen (xs_st s) = xreopen ResumeFF.stF1 /\
+  ResumeFF.has_ready (xs_st s) = false /\ ResumeFF.tip_on_node (xs_node s) (xreopen (xs_st s)) = false /\
+  match ResumeFF.start_sync_ff repaired ResumeFF.pF 1 (xs_node s) (xreopen (xs_st s)) with
+  | XOk st' =>
+      synced (x_w st') = [(8, 18%N); (7, 17%N); (6, 16%N); (5, 15%N); (4, 14%N); (3, 13%N); (2, 12%N); (1, 1%N); (0, 0%N)] /\
+      Import.status_of st' 1 = Some (Import.WImporting 1) /\
+      r_total (xreport (batches repaired ResumeFF.pF 2 (xs_node s) st' 1 4) 1) = 5
+  | _ => False
+  end.
+Proof.
+  split; [apply ids_b_sound; vm_compute; reflexivity|].
+  split; [apply wf_chain_b_sound; vm_compute; reflexivity|].
+  split; [eexists; reflexivity|].
+  split; [apply incl_appl; apply incl_refl|].
+  split; [apply xwf_b_sound; vm_compute; reflexivity|].
+  vm_compute. repeat split; reflexivity.
+Qed.
